@@ -298,6 +298,66 @@ func cyclePrograms(r *rng.R, k int) []cycleCase {
 			add(oneFile(ds...), fmt.Sprintf("mutually nested struct defaults len %d with a mistyped literal", n), "")
 		}
 	}
+	// every single-file program above once more as an INCLUDED file, entered from the including
+	// file through one of its definitions: within a module types are linked before constants before
+	// services, so a cycle is always entered at a type first; a reference from another module
+	// enters it at a constant, a service or a type of the includer's choosing (finding D74)
+	for _, cc := range append([]cycleCase{}, out...) {
+		if len(cc.p.Files) != 1 || cc.known != "" {
+			continue
+		}
+		var consts, types, svcs []string
+		for _, d := range cc.p.Files[0].Defs {
+			switch d.Kind {
+			case 'C':
+				consts = append(consts, d.Name)
+			case 'V':
+				svcs = append(svcs, d.Name)
+			default:
+				types = append(types, d.Name)
+			}
+		}
+		inc := &File{Path: "inc.thrift", Defs: cc.p.Files[0].Defs}
+		enter := func(how string, defs ...*Def) {
+			root := &File{Path: "root.thrift", Includes: []Include{{Path: "./inc.thrift"}}, Defs: defs}
+			add(&Prog{Strict: true, Files: []*File{root, inc}}, cc.how+", entered from an including file through "+how, "")
+		}
+		if len(consts) > 0 {
+			c := consts[r.Intn(len(consts))]
+			switch r.Intn(3) {
+			case 0:
+				enter("a field default", &Def{Kind: 'S', SKind: 's', Name: "Entry", Fields: []*Field{{ID: i64p(1), Name: "v", Req: 'o', Ty: &TExpr{Kind: "i32"}, Dflt: cref("inc." + c)}}})
+			case 1:
+				enter("a constant", &Def{Kind: 'C', Name: "entry", Ty: &TExpr{Kind: []string{"i32", "string"}[r.Intn(2)]}, Val: cref("inc." + c)})
+			default:
+				enter("a list constant", &Def{Kind: 'C', Name: "entry", Ty: &TExpr{Kind: "list", A: &TExpr{Kind: "i32"}}, Val: &CV{Kind: 'l', L: []*CV{cref("inc." + c)}}})
+			}
+		}
+		if len(types) > 0 && (len(consts) == 0 || r.Bool()) {
+			t := types[r.Intn(len(types))]
+			if r.Bool() {
+				enter("a typedef", &Def{Kind: 'T', Name: "Entry", Ty: wrapType(r, tref("inc."+t))})
+			} else {
+				enter("a struct field with a default", &Def{Kind: 'S', SKind: 's', Name: "Entry", Fields: []*Field{{ID: i64p(1), Name: "v", Req: 'o', Ty: tref("inc." + t), Dflt: &CV{Kind: 'm'}}}})
+			}
+		}
+		if len(svcs) > 0 {
+			enter("a service", &Def{Kind: 'V', Name: "Entry", Parent: "inc." + svcs[r.Intn(len(svcs))], Funcs: []*Func{{Name: "m"}}})
+		}
+	}
+	// constants defined as each other whose struct types carry defaults that refer to the other
+	// constant, entered at a constant (D74 itself, lengths 1..k)
+	for n := 1; n <= k; n++ {
+		name := func(pfx string, i int) string { return fmt.Sprintf("%s%d", pfx, (i%n)+1) }
+		var defs []*Def
+		for i := 0; i < n; i++ {
+			defs = append(defs, &Def{Kind: 'S', SKind: 's', Name: name("T", i), Fields: []*Field{{ID: i64p(1), Name: "f", Req: 'o', Ty: &TExpr{Kind: "i32"}, Dflt: cref(name("c", i+1))}}})
+			defs = append(defs, &Def{Kind: 'C', Name: name("c", i), Ty: tref(name("T", i)), Val: cref(name("c", i+1))})
+		}
+		root := &File{Path: "root.thrift", Includes: []Include{{Path: "./inc.thrift"}},
+			Defs: []*Def{{Kind: 'S', SKind: 's', Name: "Entry", Fields: []*Field{{ID: i64p(1), Name: "v", Req: 'o', Ty: &TExpr{Kind: "i32"}, Dflt: cref("inc." + name("c", r.Intn(n)))}}}}}
+		add(&Prog{Strict: true, Files: []*File{root, {Path: "inc.thrift", Defs: defs}}}, fmt.Sprintf("constants defined as each other through the defaults of their types, len %d, entered at a constant", n), "")
+	}
 	// deep acyclic structures must be handled without overflowing
 	for _, depth := range []int{50, 400} {
 		t := &TExpr{Kind: "i32"}
@@ -512,5 +572,5 @@ func runC08(c *checker, r *rng.R) {
 		c08Case(c, p, false, "arbitrary bytes", "")
 	}
 	c.flush()
-	c.rep.Rule = "file sets run through compile.Compile + gen.Generate in a child process (20 s timeout, GOMEMLIMIT 1 GiB, ulimit -v 6 GiB, 64 MiB goroutine stack): structurally generated programs with every kind of reference cycle of length 1..k (typedef→typedef also through containers, typedef→struct→typedef, struct→struct, const→const with anonymous / named types and through literals, const↔struct default, service extends, include loop / self include, the include loop carrying a service / constant / typedef cycle across files, typedef cycles with a literal of any kind cast to them, mutually nested struct defaults with a mistyped literal), deep acyclic chains (400 levels), invalid references and includes; random valid programs; every go.* annotation with degenerate values (none, empty, underscores, lower case, digits, spaces, quotes, Go keywords) on every annotatable position; token-level mutations of valid IDL; arbitrary bytes. Outcome ∈ {ok, err, diverges (compile crash/timeout), gen-diverges} compared with the model's verdict (the AST of text inputs comes from the real parser); oracle: no crash/timeout. Non-trivial = structured, or accepted by the parser; distinct by input. The shapes of the repaired findings D4 D5 D6 D40 (constant cycles, service cycles, self-referential defaults) are part of the cycle stream and must end in an error."
+	c.rep.Rule = "file sets run through compile.Compile + gen.Generate in a child process (20 s timeout, GOMEMLIMIT 1 GiB, ulimit -v 6 GiB, 64 MiB goroutine stack): structurally generated programs with every kind of reference cycle of length 1..k (typedef→typedef also through containers, typedef→struct→typedef, struct→struct, const→const with anonymous / named types and through literals, const↔struct default, service extends, include loop / self include, the include loop carrying a service / constant / typedef cycle across files, typedef cycles with a literal of any kind cast to them, mutually nested struct defaults with a mistyped literal; every one of these also as an included file entered from the includer through a constant / field default / typedef / service, so that the cycle is not entered at a type first), deep acyclic chains (400 levels), invalid references and includes; random valid programs; every go.* annotation with degenerate values (none, empty, underscores, lower case, digits, spaces, quotes, Go keywords) on every annotatable position; token-level mutations of valid IDL; arbitrary bytes. Outcome ∈ {ok, err, diverges (compile crash/timeout), gen-diverges} compared with the model's verdict (the AST of text inputs comes from the real parser); oracle: no crash/timeout. Non-trivial = structured, or accepted by the parser; distinct by input. The shapes of the repaired findings D4 D5 D6 D40 D74 (constant cycles, service cycles, self-referential defaults, constants cast while their types are being linked) are part of the cycle stream and must end in an error."
 }
